@@ -262,10 +262,13 @@ class TDSFaults(Part):
 
     def describe(self, tier):
         return (f'kundur_full: dynamic faults {TDS_FAULTS}; a NaN answer of the linear solver injected at each of the first {self.K} '
-                f'solves (one injection), for trapezoid and backeuler; followed by EIG on the resulting state')
+                f'solves (one injection), for trapezoid and backeuler; followed by EIG on the resulting state; failing initialisations also requested through PFlow.init_tds = 1')
 
     def cases(self, tier):
         out = [dict(fault=f, nan_at=None, method='trapezoid') for f in TDS_FAULTS]
+        # the initialisation requested through the power-flow routine (PFlow.init_tds = 1): a failed initialisation must
+        # show in the exit code whichever routine asked for it
+        out += [dict(fault=f, nan_at=None, method='trapezoid', init_tds=1) for f in ('init_limit_violated', 'tiny_Sn', 'none')]
         for k in range(self.K):
             for method in ('trapezoid', 'backeuler'):
                 out.append(dict(fault='none', nan_at=k, method=method))
@@ -301,7 +304,19 @@ class TDSFaults(Part):
                     ss.add('Toggle', dict(idx=f'TL{k}', model='Line', dev=ss.Line.idx.v[k], t=0.1))
             ss.setup()
             systems.quiet_tds(ss)
+            if case.get('init_tds'):
+                ss.PFlow.config.init_tds = 1
             ok = ss.PFlow.run()
+            if case.get('init_tds'):
+                init_ok = bool(ss.TDS.initialized) and ss.TDS.test_ok is not False
+                log.append(f'pflow {ok} init_ok {init_ok} exit {ss.exit_code}')
+                if ok and not init_ok and ss.exit_code == 0:
+                    bad(f'failed_initialisation_exit_code_zero:init_tds:{f}', f'{f}: PFlow.run with init_tds = 1: the dynamic '
+                        f'initialisation failed (test_ok = {ss.TDS.test_ok}) and System.exit_code is 0')
+                if ok and init_ok and ss.exit_code != 0:
+                    bad(f'successful_initialisation_exit_code_nonzero:init_tds:{f}', f'{f}: exit code {ss.exit_code}')
+                out.obs = dict(log=log)
+                return out
         except Exception as e:
             log.append(f'setup raised {type(e).__name__}')
             out.obs = dict(log=log)
